@@ -76,6 +76,18 @@ func main() {
 		}
 		sort.Strings(ks)
 		fmt.Println(strings.Join(ks, "\n"))
+	case "written":
+		p, sp, err := loadAll("/repo")
+		if err != nil {
+			fmt.Fprintln(os.Stderr, err)
+			os.Exit(2)
+		}
+		ex := NewExecutor(p, sp)
+		for _, k := range os.Args[2:] {
+			if fn := p.Funcs[k]; fn != nil {
+				fmt.Println(k, sortedKeys(ex.writtenIn(fn)))
+			}
+		}
 	case "unit":
 		cmdUnit(os.Args[2:])
 	case "check":
@@ -116,7 +128,7 @@ func cmdUnit(args []string) {
 		}
 		ex := NewExecutor(p, s)
 		ex.VerifyUnit(key, spec)
-		Discharge(ex.Obls, SolveConfig{QuickS: 5, SlowS: 20, Workers: 16, KeepDir: *keep})
+		Discharge(ex.Obls, SolveConfig{QuickS: 5, SlowS: 20, Workers: 16, KeepDir: *keep, BudgetS: 120})
 		groups := map[string]bool{}
 		for _, o := range ex.Obls {
 			if o.Group != "" && o.Status == "discharged" {
